@@ -161,9 +161,9 @@ def canon(line):
 # id -> (kinds of property failure the defect can cause, matcher over the ground truth of the graph)
 FINDINGS = {
     "C07-cyclic-local-units": (
-        {"R_true_not_resolvable", "U_no_return", "F_no_return"}, lambda t: t.local_units_cycle),
+        {"R_true_not_resolvable", "R_issue_not_attached", "U_no_return", "F_no_return"}, lambda t: t.local_units_cycle),
     "C07-unexamined-dependencies": (
-        {"R_true_not_resolvable", "U_true_after_R_true"}, lambda t: t.hidden_import),
+        {"R_true_not_resolvable", "R_issue_not_attached", "U_true_after_R_true"}, lambda t: t.hidden_import),
     "C07-units-history-not-popped": (
         {"U_true_after_R_true"}, lambda t: t.sibling_imports),
     "C07-null-deref-dangling-units-ref": (
@@ -174,13 +174,27 @@ FINDINGS = {
         {"F_proper_no_return"}, lambda t: t.name_capture),
     "C07-flatten-import-cycle-through-child": (
         {"F_proper_no_return", "F_model_after_R_false"}, lambda t: t.entity_cycle),
+    "C07-children-of-imported-component-not-tested": (
+        {"F_model_after_R_false", "F_proper_no_return"}, lambda t: t.import_with_children),
     "C07-parser-errors-seen-once": (
-        {"R_true_not_resolvable", "F_model_after_R_false"}, lambda t: t.parse_errors),
+        {"R_true_not_resolvable", "R_issue_not_attached", "F_model_after_R_false"}, lambda t: t.parse_errors),
 }
 
 
+class Stale:
+    """ground truth of the current files plus those of the earlier phases whose library entries are still cached"""
+
+    def __init__(self, t, earlier):
+        self.t = t
+        self.all = earlier
+
+    def __getattr__(self, name):
+        return getattr(self.t, name)
+
+
 def matching_findings(t, kind=None):
-    return [k for k, (kinds, m) in FINDINGS.items() if (kind is None or kind in kinds) and m(t)]
+    ts = t.all if isinstance(t, Stale) else [t]
+    return [k for k, (kinds, m) in FINDINGS.items() if (kind is None or kind in kinds) and any(m(x) for x in ts)]
 
 
 # ----------------------------------------------------------------------------------------------- oracle
@@ -193,12 +207,18 @@ def oracle(case, recs, mrecs):
     ri = -1
     cur = None
     last_r = None
+    stale = []
     for idx, r in enumerate(recs):
         mr = mrecs[idx] if idx < len(mrecs) else None
         if r[0] == "R":
             ri += 1
             files, fresh, label = case.phases[ri]
-            cur = (ig.truth(files), fresh, label)
+            tt = ig.truth(files)
+            # on a stale library the state still reflects the earlier file systems of this case
+            stale = [] if fresh else stale + [tt]
+            if fresh:
+                stale = [tt]
+            cur = (Stale(tt, stale) if not fresh else tt, fresh, label)
             t = cur[0]
             last_r = r
             v, issues = r[1], issue_list(r[2])
@@ -233,7 +253,7 @@ def oracle(case, recs, mrecs):
                                  "%s: flattenModel did not return (%s)%s" % (label, v, " after its pre-checks passed" if proper else ""), t))
             elif v == "null" and not issues:
                 problems.append(("F_null_no_issue", "%s: flattenModel returned null without an issue" % label, t))
-            elif last_r is not None and last_r[1] == "0" and v != "null":
+            elif last_r is not None and last_r[1] == "0" and v != "null" and not (t.file_revisit and not t.entity_cycle and t.resolvable):
                 problems.append(("F_model_after_R_false", "%s: resolveImports returned false but flattenModel returned a model" % label, t))
         elif r[0] == "?":
             problems.append(("output", "unexpected output token %s" % r[1], cur[0] if cur else None))
